@@ -123,7 +123,10 @@ func replayOnRealCode(e *Engine, l *Loaded, ob *Oblig, scratch string) (bool, st
 		}
 		return e.replayCircuit(l, ob, scratch)
 	}
-	return false, "", "", "no replayer for plain functions yet"
+	if funcKey(ob.run.fn) == "gates.GateInstanceFromId" {
+		return e.replayGateId(l, ob, scratch)
+	}
+	return false, "", "", "no replayer for this plain function (the model is recorded above)"
 }
 
 // cmdReplay prints a replay file and, when it carries a generated test, runs it again
